@@ -179,8 +179,5 @@ class ResponseCode:
         if given_id in [None, cls.PositiveResponse]:
             return False
 
-        for member in inspect.getmembers(cls):
-            if isinstance(member[1], int):
-                if member[1] == given_id:
-                    return True
-        return False
+        # Every non-zero code is a negative response code, including those this library has no name for.
+        return True
